@@ -23,7 +23,7 @@ fn strategy(tier: Tier) -> BoxedStrategy<Case> {
     (
         prop_oneof![2 => -3000i32..max_mean_e, 3 => 2000i32..max_mean_e],
         1u64..=10_000,
-        300u32..6000,
+        prop_oneof![4 => 300u32..6000, 1 => 6000u32..10_000],
         proptest::collection::vec(1u64..=10_000, 0..3),
         proptest::collection::vec(-80i64..=80, 1..6),
     )
@@ -126,7 +126,9 @@ fn check(c: &Case) -> CheckResult {
         format!("number_arrivals(delta={}) with rate*delta = {:.3} did not return: {}", c.delta, mean, e)
     })?;
     let rp = RefPoisson::new(mean);
-    let tol = 1e-7;
+    // tolerance for float rounding in the crate's cumulative sum (grows with the number and size of the
+    // terms of the log-space pmf); anything beyond it is a wrong quantile
+    let tol = 1e-11 + mean * 1e-11;
     let n_lo = rp.quantile_by_tail(c.eps + tol);
     let n_hi = if c.eps - tol > 0.0 { rp.quantile_by_tail(c.eps - tol) } else { u64::MAX };
     if (got as u64) < n_lo || (got as u64) > n_hi {
@@ -188,7 +190,7 @@ fn check(c: &Case) -> CheckResult {
 pub fn def() -> PropertyDef {
     PropertyDef {
         id: "C15",
-        rule: "generated: interval length 1..10^4, mean rate*delta log-uniform in [10^-3, ~2500 (quick) / ~5000 (thorough)] (so both large rates and large intervals occur), epsilon log-uniform in [10^-6, 0.5]; oracle: independent evaluation of the Poisson pmf by ratio recurrence from the mode (ln k! by Stirling series), upper tail summed from the far right; the returned n must lie in the band of quantiles for 1-epsilon -/+ 1e-7 (stated tolerance so that float rounding at a boundary cannot alarm); 0 at delta=0; monotone over additional generated interval lengths; arrival_probability within relative 1e-6 of the pmf at generated k around the mean (skipped below 1e-280); termination decided by a step budget (6*10^7 loop iterations; the legitimate cost is ~n^2/2 <= 1.5*10^7). Non-trivial: mean >= 100. Distinct by case JSON.".into(),
+        rule: "generated: interval length 1..10^4, mean rate*delta log-uniform in [10^-3, ~2500 (quick) / ~5000 (thorough)] (so both large rates and large intervals occur), epsilon log-uniform in [10^-10, 0.5]; oracle: independent evaluation of the Poisson pmf by ratio recurrence from the mode (ln k! by Stirling series), upper tail summed from the far right; the returned n must lie in the band of quantiles for 1-epsilon -/+ (1e-11 + mean*1e-11) (stated tolerance so that float rounding at a boundary cannot alarm); 0 at delta=0; monotone over additional generated interval lengths; arrival_probability within relative 1e-6 of the pmf at generated k around the mean (skipped below 1e-280); termination decided by a step budget (6*10^7 loop iterations; the legitimate cost is ~n^2/2 <= 1.5*10^7). Non-trivial: mean >= 100. Distinct by case JSON.".into(),
         assumptions: vec!["rate > 0, 0 < epsilon < 1, float comparisons with the stated tolerances".into()],
         subchecks: vec![subcheck("quantile", (400, 12_000), strategy, check)],
         extra: None,
